@@ -753,3 +753,34 @@ def check_C17(ctx):
             "<= 2 lines over 10 line shapes x time tokens x label tokens x {slice, vec, array}: outcome ok/err as LabelLine!Classify says, ok waveforms bit-equal to the "
             "parsed-label form, never a panic. I->S: random corruptions of corpus lines (deletion, duplication, unicode, truncation, huge/negative/NaN times, extra spaces)",
             {"expected_err_cases": nerr})
+
+
+# --------------------------------------------------------------------------- C05
+
+def check_C05(ctx):
+    q = ctx.quick()
+    cases = gen(ctx, "Mlpg", S("gen", "Gen_Mlpg.cfg" if q else "Gen_Mlpg_thorough.cfg"), S("gen", "Gen_Mlpg.tla"), workers=8, timeout=3000)
+    cpath = ctx.path("mlpg.cases.jsonl"); tpath = ctx.path("mlpg.small.ndjson")
+    write_jsonl(cpath, cases)
+    p = run_jbv(["mlpg-run", cpath, tpath], timeout=3600)
+    if p.returncode != 0:
+        raise ToolError("mlpg-run failed: " + p.stderr[-500:])
+    key = lambda e, run: "mlpg:%s" % ("panic" if e.get("ev") == "panic" else ("nonfinite" if not e.get("finite", True) else "normal-equations"))
+    trace_stage(ctx, "small-instances", S("trace", "Trace_Mlpg.cfg"), S("trace", "Trace_Mlpg.tla"), tpath, reset_ev="__none__", keyfn=key, timeout=7200)
+    t2 = ctx.path("mlpg.random.ndjson")
+    p = run_jbv(["mlpg-record", ctx.seed, 150 if q else 3000, 20 if q else 60, t2], timeout=3600)
+    if p.returncode != 0:
+        raise ToolError("mlpg-record failed")
+    trace_stage(ctx, "random-instances", S("trace", "Trace_Mlpg.cfg"), S("trace", "Trace_Mlpg.tla"), t2, reset_ev="__none__", keyfn=key, timeout=7200)
+    evs = read_jsonl(t2)
+    ctx.stage("instance coverage", islands=sum(1 for e in evs if any(e.get("nodata", [])) and not all(e.get("nodata", [True]))),
+              all_unvoiced=sum(1 for e in evs if e.get("nodata") and all(e["nodata"])), width5=sum(1 for e in evs if any(len(w) == 5 for w in e.get("wins", []))))
+    ctx.assumptions += ["means in eighths, variances powers of two in [1/4, 4], window coefficients in eighths: the normal equations are exact integers; "
+                        "trajectory logged at 1e-6 in two limbs, tolerance = quantisation error of the row (L1/2 + L1/1000 + 2)",
+                        "R is symmetric positive definite (structure invariants checked by TLC on the small instances), so zero residual is the maximiser"]
+    return ("model_checking",
+            "Mlpg.tla is the definition (mask, boundary distances, dropped dynamic observations, voiced-only neighbours, R = W'PW, r = W'P mu). TLC enumerates small "
+            "instances (<= 3-4 states, durations <= 2-3, every voicing pattern, four window sets incl. width 5) and checks R symmetric / positive diagonal / islands "
+            "decoupled; the real MlpgAdjust::create output of each, and of random instances with 1..60 states, durations 1..8, vector length 1..4, must satisfy "
+            "|R c - r| <= tol row by row and carry the no-data marker exactly on unvoiced frames",
+            {})
